@@ -40,7 +40,7 @@ def rules_loop(body):
 
 
 F('write_rule_diag_str', r'constexpr\s+void\s+write_rule_diag_str\(Stream& s,\s*size16_t rule_info_idx\)\s*const', 'void write_rule_diag_str(size16_t rule_info_idx)',
-  rules=[S(r'if constexpr \(max_rule_element_count > 1\)', 'if (max_rule_element_count > 1)', name='R17')])
+  rules=[S(r'if constexpr \((max_rule_element_count[^)]*)\)', r'if (\1)', name='R17')])
 F('write_diag_str__rules', r'constexpr\s+void\s+write_diag_str\(Stream& s\)\s*const', 'void write_diag_str__rules(void)', fragment=rules_loop)
 
 PRELUDE = PC.types(4, 8, 4, 2, 4, 3) + r'''
